@@ -396,7 +396,7 @@ theorem BackT.inj {ty : STy} {x x' y : TVal} (h : BackT dw dpw ty x y) (h' : Bac
 
 /-- **the full reader undoes the retaining reader**: for a typed value `w`, whatever the reader of the restricted document
 returns for it with retention is read back by the full reader as `w` itself. -/
-theorem keep_back_all (hd : dw.fieldsOk) : ∀ (f : Nat) (ty : STy) (w : TVal), hasTy dw f ty w = true →
+theorem keep_back_all (hd : dw.fieldsOk) (hu : dw.variantsOk) : ∀ (f : Nat) (ty : STy) (w : TVal), hasTy dw f ty w = true →
     ∀ fK w', projTyK (restrict dw keep) dpr fK ty w = some (.ok w') → BackT dw dpw ty w w' := by
   intro f
   induction f with
@@ -575,10 +575,11 @@ theorem keep_back_all (hd : dw.fieldsOk) : ∀ (f : Nat) (ty : STy) (w : TVal), 
             | panic m => simp [hl] at hk
             | fuel => simp [hl] at hk
         | union vs =>
+          have h0 : hasTy dw (f + 1) (.ref n) w = true := by simp only [hasTy]; exact h
           simp only [hn] at h
           cases w <;> (try (simp at h; done))
           rename_i wfs
-          have hnr : (restrict dw keep).find n = some (.union vs) := by rw [restrict_find, hn]; rfl
+          have hnr : (restrict dw keep).find n = some (.union (vs.filter (keepVariant keep n))) := by rw [restrict_find, hn]; rfl
           simp only [projTyK, hnr] at hk
           cases wfs with
           | nil =>
@@ -587,6 +588,10 @@ theorem keep_back_all (hd : dw.fieldsOk) : ∀ (f : Nat) (ty : STy) (w : TVal), 
             | cons hd' tl =>
               obtain ⟨i, t⟩ := hd'
               cases t <;> simp at h
+              have hvv : (STy.void == STy.void) = true := by decide
+              have hvs : ((i, STy.void) :: tl).filter (keepVariant keep n) = (i, STy.void) :: tl.filter (keepVariant keep n) := by
+                simp [List.filter_cons, keepVariant, hvv]
+              rw [hvs] at hk
               cases fK with
               | zero => simp [projUnionK] at hk
               | succ fK =>
@@ -603,30 +608,61 @@ theorem keep_back_all (hd : dw.fieldsOk) : ∀ (f : Nat) (ty : STy) (w : TVal), 
               | some p =>
                 obtain ⟨pid, ty⟩ := p
                 simp only [hfind, Bool.and_eq_true, decide_eq_true_eq, beq_iff_eq] at h
-                cases fK with
-                | zero => simp [projUnionK] at hk
-                | succ fK =>
-                  simp only [projUnionK, h.1.1, not_true_eq_false, if_false, hfind, Option.isSome_none, Bool.false_eq_true,
-                    restrict_ttype, h.1.2, bne_self_eq_false] at hk
-                  cases hx : projTyK (restrict dw keep) dpr fK ty v with
-                  | none => simp [hx] at hk
-                  | some o =>
-                    cases o with
-                    | ok pv =>
-                      simp only [hx] at hk
+                have hq := List.find?_some hfind
+                simp only [Bool.and_eq_true, beq_iff_eq, Bool.not_eq_true'] at hq
+                have hmem := List.mem_of_find?_eq_some hfind
+                have hpw := hu n vs hn
+                by_cases hkeep : keepVariant keep n (pid, ty) = true
+                · -- the reader knows the variant
+                  have hfr : (vs.filter (keepVariant keep n)).find? (fun x => x.1 == id && !(x.2 == .void)) = some (pid, ty) := by
+                    rw [List.find?_filter]
+                    apply find_unique_key (fun x : Int × STy => x.1) vs hpw (pid, ty) hmem
+                    · simp only [decide_eq_true_eq, Bool.and_eq_true, beq_iff_eq, Bool.not_eq_true']; exact ⟨hkeep, hq.1, hq.2⟩
+                    · intro y hy; simp only [decide_eq_true_eq, Bool.and_eq_true, beq_iff_eq] at hy; rw [hy.2.1, hq.1]
+                  cases fK with
+                  | zero => simp [projUnionK] at hk
+                  | succ fK =>
+                    simp only [projUnionK, h.1.1, not_true_eq_false, if_false, hfr, Option.isSome_none, Bool.false_eq_true,
+                      restrict_ttype, h.1.2, bne_self_eq_false] at hk
+                    cases hx : projTyK (restrict dw keep) dpr fK ty v with
+                    | none => simp [hx] at hk
+                    | some o =>
+                      cases o with
+                      | ok pv =>
+                        simp only [hx] at hk
+                        cases fK with
+                        | zero => simp [projTyK] at hx
+                        | succ fK =>
+                          simp only [projUnionK, Option.some.injEq, Out.ok.injEq] at hk
+                          subst hk
+                          obtain ⟨ht, G, hG⟩ := ih ty v h.2 (fK + 1) pv hx
+                          refine ⟨rfl, G + 1 + 1 + 1, ?_⟩
+                          have hG' := projTy_mono dw dpw G (G + 1) (by omega) ty pv v hG
+                          simp only [projTy, hn, projUnion, h.1.1, not_true_eq_false, if_false, hfind, Option.isSome_none, Bool.false_eq_true,
+                            ht, h.1.2, bne_self_eq_false, hG']
+                      | err k => simp [hx] at hk
+                      | panic m => simp [hx] at hk
+                      | fuel => simp [hx] at hk
+                · -- a variant the reader lacks: retained as it is (`_UnknownFields`), so the re-encoding is the original
+                  have hfr : (vs.filter (keepVariant keep n)).find? (fun x => x.1 == id && !(x.2 == .void)) = none := by
+                    rw [List.find?_filter, List.find?_eq_none]
+                    intro x hx hpq
+                    simp only [decide_eq_true_eq, Bool.and_eq_true, beq_iff_eq] at hpq
+                    have : x = (pid, ty) := same_key (fun x : Int × STy => x.1) vs hpw x (pid, ty) hx hmem (by rw [hpq.2.1, hq.1])
+                    rw [this] at hpq; exact hkeep hpq.1
+                  cases fK with
+                  | zero => simp [projUnionK] at hk
+                  | succ fK =>
+                    simp only [projUnionK, h.1.1, not_true_eq_false, if_false, hfr, Option.isSome_none, Bool.false_eq_true] at hk
+                    by_cases hadm : admitsB dpr v.need = true
+                    · simp only [hadm, if_true] at hk
                       cases fK with
-                      | zero => simp [projTyK] at hx
+                      | zero => simp [projUnionK] at hk
                       | succ fK =>
                         simp only [projUnionK, Option.some.injEq, Out.ok.injEq] at hk
                         subst hk
-                        obtain ⟨ht, G, hG⟩ := ih ty v h.2 (fK + 1) pv hx
-                        refine ⟨rfl, G + 1 + 1 + 1, ?_⟩
-                        have hG' := projTy_mono dw dpw G (G + 1) (by omega) ty pv v hG
-                        simp only [projTy, hn, projUnion, h.1.1, not_true_eq_false, if_false, hfind, Option.isSome_none, Bool.false_eq_true,
-                          ht, h.1.2, bne_self_eq_false, hG']
-                    | err k => simp [hx] at hk
-                    | panic m => simp [hx] at hk
-                    | fuel => simp [hx] at hk
+                        exact ⟨rfl, canon_of_hasTy dw dpw hd (f + 1) (.ref n) _ h0⟩
+                    · simp [hadm] at hk
         | enum =>
           simp only [hn] at h
           cases w <;> (try (simp at h; done))
